@@ -71,13 +71,15 @@ Canonical(s) == LET t == FromStr(s) IN t.err \/ FromStr(ToStr(t)) = t
 RoundTrip(t) == InDom(t) => FromStr(ToStr(t)) = t
 
 \* field contents with separators in every position; values are enumerated by index tuples
-FieldSeq == << <<>>, <<"a">>, <<"a", "b">>, <<":">>, <<"a", ":">>, <<"#", "a">>, <<"(", "a">>, <<"a", ")">>, <<"@">>, <<"a", "#", "b">> >>
+FieldSeq == << <<>>, <<"a">>, <<"a", "b">>, <<":">>, <<"a", ":">>, <<"#", "a">>, <<"(", "a">>, <<"a", ")">>, <<"@">>, <<"a", "#", "b">>,
+              <<"a", ":", "/", "/", "b">>, <<"/", "a", ".", "b", "?", "c", "=", "d">> >>   \* URL-like contents
 NF == Len(FieldSeq)
 NsSeq == << <<"a">>, <<":">> >>
 ObjSeq == << <<"a">>, <<"#", "a">> >>
 RelSeq == << <<>>, <<"a">>, <<"@">> >>
-ValueIdx == {[kind |-> "id", a |-> a, b |-> b, c |-> c, d |-> d, e |-> 1, f |-> 1] : a \in 1..NF, b \in 1..NF, c \in 1..NF, d \in 1..NF}
-            \cup {[kind |-> "set", a |-> a, b |-> b, c |-> c, d |-> d, e |-> e, f |-> f] : a \in 1..2, b \in 1..2, c \in 1..3, d \in 1..NF, e \in 1..NF, f \in 1..NF}
+\* (no set of all value indices is ever built: TLC evaluates constant definitions eagerly and slowly)
+IdIdx(a) == {[kind |-> "id", a |-> a, b |-> b, c |-> c, d |-> d, e |-> 1, f |-> 1] : b \in 1..NF, c \in 1..NF, d \in 1..NF}
+SetIdx(d) == {[kind |-> "set", a |-> a, b |-> b, c |-> c, d |-> d, e |-> e, f |-> f] : a \in 1..2, b \in 1..2, c \in 1..3, e \in 1..NF, f \in 1..NF}
 ValueOf(v) == IF v.kind = "id" THEN T(FieldSeq[v.a], FieldSeq[v.b], FieldSeq[v.c], IdSub(FieldSeq[v.d]))
               ELSE T(NsSeq[v.a], ObjSeq[v.b], RelSeq[v.c], SetSub(FieldSeq[v.d], FieldSeq[v.e], FieldSeq[v.f]))
 
@@ -88,16 +90,23 @@ RECURSIVE Pow7(_)
 Pow7(k) == IF k = 0 THEN 1 ELSE 7 * Pow7(k - 1)
 Decode(len, idx) == [i \in 1..len |-> CharSeq[((idx \div Pow7(i - 1)) % 7) + 1]]
 
-VARIABLES x, done
-vars == <<x, done>>
-Init == /\ x \in (IF Mode = "strings" THEN {[len |-> l, idx |-> i] : l \in 0..MaxLen, i \in 0..(Pow7(MaxLen) - 1)}
-                   ELSE ValueIdx)
-        /\ (Mode = "strings" => x.idx < Pow7(x.len))
-        /\ done = FALSE
-Next == /\ ~done /\ done' = TRUE /\ x' = x
-        /\ IF Mode = "strings"
-           THEN PrintT(ToJson([s |-> Decode(x.len, x.idx), r |-> FromStr(Decode(x.len, x.idx))]))
-           ELSE PrintT(ToJson([t |-> ValueOf(x), indom |-> InDom(ValueOf(x)), str |-> ToStr(ValueOf(x))]))
+\* The case space is reached in two branching steps (a partition key first, the rest
+\* second) so that TLC's workers generate the cases in parallel instead of one
+\* thread enumerating them as initial states.
+VARIABLES x, stage
+vars == <<x, stage>>
+Parts == 0..(IF Mode = "strings" THEN 15 ELSE 2 * NF - 1)
+StringCases(p) == {[len |-> l, idx |-> i] : l \in 0..MaxLen, i \in {j \in 0..(Pow7(MaxLen) - 1) : j % 16 = p}}
+Init == x = [part |-> -1] /\ stage = 0
+Next == \/ /\ stage = 0 /\ \E p \in Parts : x' = [part |-> p] /\ stage' = 1
+        \/ /\ stage = 1 /\ stage' = 2
+           /\ IF Mode = "strings"
+              THEN \E c \in StringCases(x.part) : c.idx < Pow7(c.len) /\ x' = c
+              ELSE \E c \in (IF x.part < NF THEN IdIdx(x.part + 1) ELSE SetIdx(x.part - NF + 1)) : x' = c
+        \/ /\ stage = 2 /\ stage' = 3 /\ x' = x
+           /\ IF Mode = "strings"
+              THEN PrintT(ToJson([s |-> Decode(x.len, x.idx), r |-> FromStr(Decode(x.len, x.idx))]))
+              ELSE PrintT(ToJson([t |-> ValueOf(x), indom |-> InDom(ValueOf(x)), str |-> ToStr(ValueOf(x))]))
 Spec == Init /\ [][Next]_vars
-Faithful == IF Mode = "strings" THEN Canonical(Decode(x.len, x.idx)) ELSE RoundTrip(ValueOf(x))
+Faithful == stage >= 2 => (IF Mode = "strings" THEN Canonical(Decode(x.len, x.idx)) ELSE RoundTrip(ValueOf(x)))
 =============================================================================
